@@ -522,10 +522,12 @@ func (u *Unmarshaler) processFieldNotFromString(fieldType reflect.Type, value re
 			parent:  vp.parent,
 		}, fullName)
 	case valueKind == reflect.Map && typeKind == reflect.Map:
+		fieldType, value = derefContainer(fieldType, value)
 		return u.fillMap(fieldType, value, mapValue)
 	case valueKind == reflect.String && typeKind == reflect.Map:
 		return u.fillMapFromString(value, mapValue)
 	case valueKind == reflect.String && typeKind == reflect.Slice:
+		fieldType, value = derefContainer(fieldType, value)
 		return u.fillSliceFromString(fieldType, value, mapValue)
 	case valueKind == reflect.String && derefedFieldType == durationType:
 		dur, ok := mapValue.(string)
@@ -546,8 +548,10 @@ func (u *Unmarshaler) processFieldPrimitive(fieldType reflect.Type, value reflec
 
 	switch {
 	case typeKind == reflect.Slice && valueKind == reflect.Slice:
+		fieldType, value = derefContainer(fieldType, value)
 		return u.fillSlice(fieldType, value, mapValue)
 	case typeKind == reflect.Map && valueKind == reflect.Map:
+		fieldType, value = derefContainer(fieldType, value)
 		return u.fillMap(fieldType, value, mapValue)
 	default:
 		switch v := mapValue.(type) {
@@ -845,6 +849,17 @@ func createValuer(v valuerWithParent, opts *fieldOptionsWithContext) valuerWithP
 		current: v,
 		parent:  v.Parent(),
 	}
+}
+
+// derefContainer 用于指向切片/字典的指针字段：返回其所指类型及（必要时新建的）所指值，
+// 其他字段原样返回。切片/字典的填充函数直接从所给类型取元素与键的类型，故不能传指针类型。
+func derefContainer(fieldType reflect.Type, value reflect.Value) (reflect.Type, reflect.Value) {
+	if fieldType.Kind() != reflect.Ptr || !value.CanSet() {
+		return fieldType, value
+	}
+
+	maybeNewValue(fieldType, value)
+	return fieldType.Elem(), value.Elem()
 }
 
 func fillDurationValue(fieldKind reflect.Kind, value reflect.Value, dur string) error {
